@@ -524,12 +524,19 @@ func (pf Producer[T]) GenerateParallel(
 		var zero T
 		pipe.Processor().
 			ReadAll(func(ctx context.Context) (T, error) {
+				if err := ctx.Err(); err != nil {
+					// the group was aborted: do not call the generator again.
+					return zero, err
+				}
 				value, err := pf(ctx)
 				if err != nil {
 					if opts.CanContinueOnError(err) {
 						return zero, ErrIteratorSkip
 					}
-
+					// abort: a failure stops the other workers too; the
+					// generator's own end-of-stream signal (a plain io.EOF)
+					// must not, or values still in flight would be dropped.
+					ft.WhenCall(!errors.Is(err, io.EOF) || errors.Is(err, ErrRecoveredPanic), cancel)
 					return zero, io.EOF
 				}
 				return value, nil
